@@ -31,7 +31,8 @@ CFG = {
             "hostile destinations the builder accepts), NAME_MAX (components of 255 bytes - as directory name, base name, link name, three in one path, with multi-byte characters across "
             "the limit - and of 256 bytes: in the middle of a path, as the last component, under ancestors that still have to be created, as a link name, inside a link target; built and hand-encoded), "
             "names that are not UTF-8 (directory, base name, link target; stripped and named archive entries), builder-made packages with the destination spelled relatively / through '..' / through a "
-            "symbolic link of the caller's (via=), then seeded random builder-made benign packages and seeded random hand-encoded hostile packages. "
+            "symbolic link of the caller's (via=), other umasks (0, 002, 027, 077, 133, 777: part of the model's state, visible in the directories create_dir_all makes) and an unprivileged user who owns the jail (uid=65534; "
+            "predicted with the root semantics where permission bits cannot bind, otherwise only containment / no-panic are judged), then seeded random builder-made benign packages and seeded random hand-encoded hostile packages. "
             "Non-trivial = the package parses; distinct = distinct request lines.",
     "exhaustive": False,
     "shards": {"quick": 1, "thorough": 4},
@@ -40,7 +41,8 @@ CFG = {
     "trusted_base": ["POSIX/Linux semantics of mkdir, open(O_CREAT|O_TRUNC), chmod, lstat, unlink, symlink and of the kernel's path walk (modelled in Model/Fs.lean; "
                      "validated by the jail snapshots, not proved)",
                      "std: fs::create_dir_all (recursive formulation), Path::join / strip_prefix / components (modelled; validated by the correspondence)",
-                     "the extraction runs as root with umask 022 (permission bits never make a call fail); NAME_MAX = 255 is modelled at the creating calls (mkdir / open(O_CREAT) / symlink answer "
+                     "the extraction runs as root (permission bits never make a call fail; EACCES / EPERM are not modelled: unprivileged runs are predicted only for benign packages whose directories keep u+wx - "
+                     "see Driver/C12.lean judgeUnprivilegedFaithful and corpus/C12/unprivileged-readonly-dir.case for the possible defect left outside); the umask is a field of the model's state (022 by default); NAME_MAX = 255 is modelled at the creating calls (mkdir / open(O_CREAT) / symlink answer "
                      "ENAMETOOLONG for a longer last component; a walk that merely looks such a name up answers ENOENT in the model, ENAMETOOLONG in the kernel - an error either way; validated by the 255 / 256-byte cases); "
                      "paths < 4096 bytes (PATH_MAX is not modelled)",
                      "Model/PkgFiles.lean decodes the package for the driver: no code of its own but the composition of Acc.getFileEntries (C04/C05/C06), "
